@@ -100,14 +100,24 @@ class Lock:
 
 
 def run(cmd, cwd=None, inp=None, timeout=3600, env=None):
+    """run a command in its own process group; on time-out the whole group is killed (lake/lean leave grandchildren otherwise)"""
+    import signal
+
     e = dict(os.environ)
     if env:
         e.update(env)
-    p = subprocess.run(
-        cmd, cwd=cwd, input=inp, stdout=subprocess.PIPE, stderr=subprocess.STDOUT, timeout=timeout, env=e,
-        text=True,
-    )
-    return p.returncode, p.stdout
+    p = subprocess.Popen(cmd, cwd=cwd, stdin=subprocess.PIPE if inp is not None else None, stdout=subprocess.PIPE, stderr=subprocess.STDOUT,
+                         env=e, text=True, start_new_session=True)
+    try:
+        out, _ = p.communicate(inp, timeout=timeout)
+    except subprocess.TimeoutExpired:
+        try:
+            os.killpg(p.pid, signal.SIGKILL)
+        except ProcessLookupError:
+            pass
+        p.wait()
+        raise
+    return p.returncode, out
 
 
 # ---------------------------------------------------------------------------------------------
